@@ -168,7 +168,8 @@ def den(e, sc: dict):
         if a == 1:
             return 1
         if a == -1:
-            return 1 if b % 2 == 0 else -1
+            # float(b) is an even integer once |b| >= 2**53: the parity of the exponent is lost there
+            return 1 if (abs(b) >= 2**53 or b % 2 == 0) else -1
         if abs(a) < 2**1000:
             return 0
         raise TooBig
